@@ -245,7 +245,7 @@ def misc_cov(chk, repo, d, eq):
         sols.append(a)
     storage = Arr('storage', default=lambda k: sols[k])
     cv = Arr('c', default=lambda k: X.atom(f'C{k}', 'complex'))
-    solution = Arr('solution')
+    solution = Arr('solution', default=lambda k: Opaque('nan'))
     itc = Interp(repo)
     itc.call(mc, fc, [solution, cv, storage, rad, den, grv, w, 0, nsl, 2, 6, 4, 6, 0, 1, False, False])
     names6 = ('y1', 'y2', 'y3', 'y4', 'y5', 'y6')
@@ -271,7 +271,7 @@ def misc_cov(chk, repo, d, eq):
         sols5 = [Arr(f'sol{s_}', default=lambda k, s_=s_: D5.atom(f's{s_}_{k // nys}_{layk[k % nys]}', 'complex', **{u: e_ for u, e_ in S.YDIM[layk[k % nys]].items()})) for s_ in range(nsol)]
         storage5 = Arr('storage', default=lambda k: sols5[k])
         cv5 = Arr('c', default=lambda k: X.atom(f'C{k}', 'complex'))
-        out5 = Arr('solution')
+        out5 = Arr('solution', default=lambda k: Opaque('nan'))
         Interp(repo).call(mc, fc, [out5, cv5, storage5, rad5, den5, grv5, w5, 0, 2, nsol, 6, nys, 6, 0, 0 if kind == 'solid' else 1, static, False])
         lab = f'{kind}{" static" if static else (" dynamic" if kind == "liquid" else "")}'
         bad = []
@@ -318,7 +318,7 @@ def layout(chk, repo, d, eq):
         layk = ts72.LAYOUT[(kind_, static_)]; nys_ = len(layk); nsol_ = ts72.NUM_SOLS[(kind_, static_)]
         for t_ in (0, 1):
             sols_ = [Arr(f'sol{s_}', default=lambda k_, s_=s_: X.atom(f'w{s_}_{k_}', 'complex')) for s_ in range(nsol_)]
-            outw = Arr('solution')
+            outw = Arr('solution', default=lambda k: Opaque('nan'))
             Interp(repo).call(mc, fc, [outw, Arr('c', default=lambda k_: X.atom(f'C{k_}', 'complex')), Arr('storage', default=lambda k_: sols_[k_]),
                                        Arr('r', default=lambda k_: X.atom(f'r{k_}', 'pos')), Arr('rho', default=lambda k_: X.atom(f'rho{k_}', 'pos')), Arr('g', default=lambda k_: X.atom(f'g{k_}', 'pos')),
                                        X.atom('w', 'pos'), 0, 3, nsol_, 6, nys_, 12, t_, 0 if kind_ == 'solid' else 1, static_, False])
